@@ -1,211 +1,74 @@
 """R-COUNT.end-index: Geobj.compute_connections predicts the global index of the pulse at the
 second end of an object (`end_segs[1] = pulse_idx + npulse`) before the pulses are created.  The
 prediction must equal the number of pulses the same function creates before the end-2 pulse, for
-every combination of end states.  Both sides are small expressions over the end states; they are
-evaluated over the finite abstract domain of end states (free / grounded / joined to an earlier
-object with either direction / joined to itself) - no repository code is executed."""
+every combination of end states.  Decided on the creation model (_creation.py): symbolic paths with
+ordered events, evaluated over the finite abstract domain of end states - no repository code is
+executed."""
 import ast
-from ..model import AnalysisError, walk_no_nested, norm, dotted, parent
-from ..cfg import if_chain_preds
-
-CC = 'mininec.Geobj.compute_connections'
-END_STATES = ('free', 'ground', 'other+', 'other-', 'self+', 'self-')
-N_SELF = 2          # position of the object under analysis
-N_OTHER = 0         # position of an earlier object
+from ..model import AnalysisError, norm
+from ._creation import (CC, PIDX, Undecidable, creation_model, make_env, aeval, path_feasible,
+                        actual_sequence, states, feasible_paths, AssertionFails)
 
 
-class Undecidable(Exception):
-    pass
-
-
-def idx_value(state):
-    """value of Geobj.idx(end) as documented in Geobj.idx / Connected_Geobj.idx"""
-    if state == 'free':
-        return 0
-    if state == 'ground':
-        return -(N_SELF + 1)
-    sign = 1 if state.endswith('+') else -1
-    if state.startswith('other'):
-        return (N_OTHER + 1) * sign
-    return (N_SELF + 1) * sign
-
-
-def make_env(s0, s1, nseg):
-    env = {
-        'self.idx_1': idx_value(s0), 'self.idx_2': idx_value(s1),
-        'self.n': N_SELF, 'self.n_segments': nseg,
-        'self.is_ground[0]': s0 == 'ground', 'self.is_ground[1]': s1 == 'ground',
-        'self.conn[0].list': s0.startswith(('other', 'self')),
-        'self.conn[1].list': s1.startswith(('other', 'self')),
-        'self.conn[0].list[0][0] is self': s0.startswith('self'),
-        'self.conn[1].list[0][0] is self': s1.startswith('self'),
-        'parent.pulses.pulse_idx': 100,
-    }
-    return env
-
-
-def aeval(e, env, flow, at, depth=0):
-    if depth > 12:
-        raise Undecidable('too deep')
-    t = norm(e)
-    if t in env:
-        return env[t]
-    if isinstance(e, ast.Constant):
-        return e.value
-    if isinstance(e, ast.Name):
-        if e.id in flow.rd.names:
-            ds = flow.def_exprs(e.id, at)
-            plain = [d for d in ds if d[0] == 'assign']
-            augs = [d for d in ds if d[0] == 'aug']
-            others = [d for d in ds if d[0] not in ('assign', 'aug')]
-            if len(plain) == 1 and not others:
-                v = aeval(plain[0][1], env, flow, plain[0][2], depth + 1)
-                for d in sorted(augs, key=lambda x: x[2]):
-                    st = d[1]
-                    guards = if_chain_preds(flow.cfg, d[2])
-                    take = True
-                    for (tt, br) in guards:
-                        gv = aeval(ast.parse(tt, mode='eval').body, env, flow, d[2], depth + 1)
-                        if bool(gv) != br:
-                            take = False
-                    if take:
-                        dv = aeval(st.value, env, flow, d[2], depth + 1)
-                        if isinstance(st.op, ast.Sub):
-                            v = v - dv
-                        elif isinstance(st.op, ast.Add):
-                            v = v + dv
-                        else:
-                            raise Undecidable('augmented op')
-                return v
-        raise Undecidable('name %s' % e.id)
-    if isinstance(e, ast.BoolOp):
-        if isinstance(e.op, ast.And):
-            v = True
-            for x in e.values:
-                v = aeval(x, env, flow, at, depth + 1)
-                if not v:
-                    return v
-            return v
-        v = False
-        for x in e.values:
-            v = aeval(x, env, flow, at, depth + 1)
-            if v:
-                return v
-        return v
-    if isinstance(e, ast.UnaryOp):
-        v = aeval(e.operand, env, flow, at, depth + 1)
-        if isinstance(e.op, ast.Not):
-            return not v
-        if isinstance(e.op, ast.USub):
-            return -v
-        return v
-    if isinstance(e, ast.BinOp):
-        a = aeval(e.left, env, flow, at, depth + 1)
-        b = aeval(e.right, env, flow, at, depth + 1)
-        if isinstance(e.op, ast.Add):
-            return a + b
-        if isinstance(e.op, ast.Sub):
-            return a - b
-        if isinstance(e.op, ast.Mult):
-            return a * b
-        raise Undecidable('binop')
-    if isinstance(e, ast.Compare) and len(e.ops) == 1:
-        a = aeval(e.left, env, flow, at, depth + 1)
-        b = aeval(e.comparators[0], env, flow, at, depth + 1)
-        op = e.ops[0]
-        if isinstance(op, ast.Eq):
-            return a == b
-        if isinstance(op, ast.NotEq):
-            return a != b
-        if isinstance(op, ast.Lt):
-            return a < b
-        if isinstance(op, ast.Gt):
-            return a > b
-        if isinstance(op, ast.LtE):
-            return a <= b
-        if isinstance(op, ast.GtE):
-            return a >= b
-        raise Undecidable('compare')
-    if isinstance(e, ast.Call) and isinstance(e.func, ast.Name) and e.func.id == 'abs' and len(e.args) == 1:
-        return abs(aeval(e.args[0], env, flow, at, depth + 1))
-    if isinstance(e, ast.Call) and (dotted(e.func) or '') == 'np.sign' and len(e.args) == 1:
-        v = aeval(e.args[0], env, flow, at, depth + 1)
-        return (v > 0) - (v < 0)
-    raise Undecidable(norm(e)[:60])
+def _final_store(p, key):
+    vals = [ev for ev in p.events if ev[0] == 'store' and ev[1] == key]
+    return vals[-1] if vals else None
 
 
 def check_end_index(ctx, ck, rule='R-COUNT.end-index'):
-    f = ctx.func(CC)
-    fl = ctx.flow(f)
-    # prediction
-    stores = [s for s in walk_no_nested(f.node) if isinstance(s, ast.Assign) and
-              norm(s.targets[0]) == 'self.end_segs[1]' and not
-              (isinstance(s.value, ast.Constant) and s.value.value is None)]
-    if len(stores) != 1:
-        raise AnalysisError('%s: expected one non-None assignment of self.end_segs[1], found %d' % (CC, len(stores)))
-    pred = stores[0]
-    # creation sites
-    creations = sorted([s for s in walk_no_nested(f.node) if isinstance(s, ast.Assign) and
-                        isinstance(s.value, ast.Call) and isinstance(s.value.func, ast.Name) and
-                        s.value.func.id == 'Pulse'], key=lambda s: s.lineno)
-    end2 = [c for c in creations if any(t in ('self.is_ground[1]', 'self.idx_2 != 0') and b
-                                        for t, b in if_chain_preds(fl.cfg, fl.node_id_of(c)))]
-    before = [c for c in creations if c not in end2]
-    if len(end2) != 2 or len(before) != 3:
-        raise AnalysisError('%s: creation sites not recognised (%d before, %d at end 2)' % (CC, len(before), len(end2)))
+    f, paths = creation_model(ctx)
     n_cases = 0
     bad = []
+    bad0 = []
+    where = None
     try:
-        for s0 in END_STATES:
-            for s1 in END_STATES:
-                if s1 == 'free':
-                    continue            # no end-2 pulse: the prediction is not used (set to None / unused)
-                if s0.startswith('self') != s1.startswith('self'):
-                    continue
-                for nseg in (2, 5):
-                    env = make_env(s0, s1, nseg)
-                    predicted = aeval(pred.value, env, fl, fl.node_id_of(pred)) - env['parent.pulses.pulse_idx']
-                    actual = 0
-                    for c in before:
-                        guards = if_chain_preds(fl.cfg, fl.node_id_of(c))
-                        inloop = None
-                        p = parent(c)
-                        while p is not None and p is not f.node:
-                            if isinstance(p, ast.For):
-                                inloop = p
-                            p = parent(p)
-                        if inloop is not None:
-                            if norm(inloop.iter) != 'enumerate(self.segments[:-1])':
-                                raise Undecidable('interior loop iterates %s' % norm(inloop.iter))
-                            actual += nseg - 1
-                            continue
-                        ok = True
-                        # if / elif chain: a site in an elif is reached only if the earlier tests fail
-                        for (tt, br) in guards:
-                            gv = aeval(ast.parse(tt, mode='eval').body, env, fl, fl.node_id_of(c))
-                            if bool(gv) != br:
-                                ok = False
-                        if ok:
-                            actual += 1
+        for s0, s1, nseg in states():
+            env = make_env(s0, s1, nseg)
+            try:
+                feas = feasible_paths(paths, env, 'end states (%s, %s), %d segments' % (s0, s1, nseg))
+            except AssertionFails as e_:
+                bad.append((s0, s1, nseg, str(e_), -1))
+                continue
+            for p in feas:
+                seq = actual_sequence(p, env)
+                # end 2
+                if s1 != 'free':
+                    st = _final_store(p, 'self.end_segs[1]')
+                    if st is None:
+                        raise AnalysisError('%s: self.end_segs[1] is not assigned on a path' % CC)
+                    where = where or st[3]
+                    pos = [i for i, (k, e) in enumerate(seq) if e == 2]
+                    val = aeval(st[2], env)
                     n_cases += 1
-                    if predicted != actual:
-                        bad.append((s0, s1, nseg, predicted, actual))
+                    if len(pos) != 1 or val is None or val - PIDX != pos[0]:
+                        bad.append((s0, s1, nseg, None if val is None else val - PIDX, pos[0] if pos else len(seq)))
+                # end 1: the first pulse of the object
+                if seq and not (s0 == 'free' and nseg == 1):
+                    st0 = _final_store(p, 'self.end_segs[0]')
+                    if st0 is None:
+                        raise AnalysisError('%s: self.end_segs[0] is not assigned on a path' % CC)
+                    v0 = aeval(st0[2], env)
+                    if v0 != PIDX:
+                        bad0.append((s0, s1, nseg, v0))
     except Undecidable as e:
         raise AnalysisError('%s: end-index expressions not understood: %s' % (CC, e))
-    ck.ob(rule, CC + '|end_segs[1]', not bad, f.loc(pred),
+    bad = sorted(set(bad), key=str)
+    asf = [b for b in bad if b[4] == -1]
+    if asf:
+        ck.ob(rule, CC + '|end_segs[1]', False, f.loc(where),
+              'for end states (end1=%s, end2=%s, %d segments) every path fails: %s' % asf[0][:4])
+        bad = []
+        ck.ob(rule, CC + '|end_segs[0]', True, f.loc(where), 'not judged')
+        return n_cases
+    ck.ob(rule, CC + '|end_segs[1]', not bad, f.loc(where),
           'predicted index of the end-2 pulse equals the number of pulses created before it in all %d '
           'end-state cases' % n_cases if not bad else
-          'for end states (end1=%s, end2=%s, %d segments) end_segs[1] is predicted as pulse_idx+%d but %d '
+          'for end states (end1=%s, end2=%s, %d segments) end_segs[1] is predicted as pulse_idx+%s but %d '
           'pulses are created before the end-2 pulse (%d of %d cases differ): junction lines and sources '
           'addressed through this end use the wrong pulse' % (bad[0] + (len(bad), n_cases)))
-    # end_segs[0] = index of the first pulse of the object
-    st0 = [s for s in walk_no_nested(f.node) if isinstance(s, ast.Assign) and
-           norm(s.targets[0]) == 'self.end_segs[0]' and not
-           (isinstance(s.value, ast.Constant) and s.value.value is None)]
-    ok = len(st0) == 1 and norm(st0[0].value) == 'parent.pulses.pulse_idx'
-    if ok:
-        first_creation = min(fl.node_id_of(c) for c in creations)
-        ok = all(fl.node_id_of(st0[0]) not in fl.cfg.reachable_from(fl.node_id_of(c)) for c in creations)
-    ck.ob(rule, CC + '|end_segs[0]', ok, f.loc(st0[0] if st0 else None),
-          'end_segs[0] = global index of the first pulse created for the object, taken before any creation')
+    bad0 = sorted(set(bad0), key=str)
+    ck.ob(rule, CC + '|end_segs[0]', not bad0, f.loc(where),
+          'end_segs[0] = global index of the first pulse created for the object, read before any creation'
+          if not bad0 else 'for end states (end1=%s, end2=%s, %d segments) end_segs[0] is %s, not the index of the '
+          'first pulse of the object' % bad0[0])
     return n_cases
